@@ -70,6 +70,10 @@ extern int cqv_w_root;                    /* kind of the outermost struct (set b
 extern int cqv_rl_type; extern int cqv_rl_id;      /* the ghost field (wire type, id), chosen by the harness */
 extern int cqv_rl_count;                           /* list length served by thrift_read_list_begin (0..2) */
 extern int cqv_rl_calls;                           /* thrift_read_field_begin calls so far */
+extern int cqv_rl_none;                            /* 1: the struct has no field at all (first field_begin returns false) */
+extern int64_t cqv_rl_v;                           /* ghost VALUE returned (truncated to the width) by the integer readers */
+extern _Bool cqv_rl_vb;                            /* ghost value returned by thrift_read_bool */
+extern const uint8_t* cqv_rl_bin; extern int32_t cqv_rl_binlen;   /* ghost result of thrift_read_binary */
 extern int cqv_rl_n_byte, cqv_rl_n_i16, cqv_rl_n_i32, cqv_rl_n_i64, cqv_rl_n_bool, cqv_rl_n_bin, cqv_rl_n_list,
            cqv_rl_n_skip, cqv_rl_skip_type, cqv_rl_n_begin, cqv_rl_n_end;
 
@@ -232,23 +236,24 @@ void* carquet_arena_memdup(carquet_arena_t* arena, const void* src, size_t size)
 #endif /* CQV_PT_ARENA_BODIES */
 
 #ifdef CQV_PT_RLOG
-int cqv_rl_type, cqv_rl_id, cqv_rl_count, cqv_rl_calls;
+int cqv_rl_type, cqv_rl_id, cqv_rl_count, cqv_rl_calls, cqv_rl_none;
+int64_t cqv_rl_v; _Bool cqv_rl_vb; const uint8_t* cqv_rl_bin; int32_t cqv_rl_binlen;
 int cqv_rl_n_byte, cqv_rl_n_i16, cqv_rl_n_i32, cqv_rl_n_i64, cqv_rl_n_bool, cqv_rl_n_bin, cqv_rl_n_list,
     cqv_rl_n_skip, cqv_rl_skip_type, cqv_rl_n_begin, cqv_rl_n_end;
 void thrift_decoder_init(thrift_decoder_t* dec, const uint8_t* data, size_t size) {
   dec->reader.data = data; dec->reader.size = size; dec->reader.pos = 0;
   dec->nesting_level = 0; dec->status = CARQUET_OK; dec->bool_pending = false;
 }
-int8_t thrift_read_byte(thrift_decoder_t* dec) { cqv_rl_n_byte++; return (int8_t)nondet_int(); }
-int16_t thrift_read_i16(thrift_decoder_t* dec) { cqv_rl_n_i16++; return (int16_t)nondet_int(); }
-int32_t thrift_read_i32(thrift_decoder_t* dec) { cqv_rl_n_i32++; return nondet_i32(); }
-int64_t thrift_read_i64(thrift_decoder_t* dec) { cqv_rl_n_i64++; return nondet_i64(); }
-bool thrift_read_bool(thrift_decoder_t* dec) { cqv_rl_n_bool++; return nondet_bool(); }
-const uint8_t* thrift_read_binary(thrift_decoder_t* dec, int32_t* length) { cqv_rl_n_bin++; *length = 0; return NULL; }
+int8_t thrift_read_byte(thrift_decoder_t* dec) { cqv_rl_n_byte++; return (int8_t)cqv_rl_v; }
+int16_t thrift_read_i16(thrift_decoder_t* dec) { cqv_rl_n_i16++; return (int16_t)cqv_rl_v; }
+int32_t thrift_read_i32(thrift_decoder_t* dec) { cqv_rl_n_i32++; return (int32_t)cqv_rl_v; }
+int64_t thrift_read_i64(thrift_decoder_t* dec) { cqv_rl_n_i64++; return cqv_rl_v; }
+bool thrift_read_bool(thrift_decoder_t* dec) { cqv_rl_n_bool++; return cqv_rl_vb; }
+const uint8_t* thrift_read_binary(thrift_decoder_t* dec, int32_t* length) { cqv_rl_n_bin++; *length = cqv_rl_binlen; return cqv_rl_bin; }
 void thrift_read_struct_begin(thrift_decoder_t* dec) { cqv_rl_n_begin++; }
 void thrift_read_struct_end(thrift_decoder_t* dec) { cqv_rl_n_end++; }
 bool thrift_read_field_begin(thrift_decoder_t* dec, thrift_type_t* type, int16_t* field_id) {
-  if (cqv_rl_calls++ == 0) { *type = (thrift_type_t)cqv_rl_type; *field_id = (int16_t)cqv_rl_id; return true; }
+  if (cqv_rl_calls++ == 0 && !cqv_rl_none) { *type = (thrift_type_t)cqv_rl_type; *field_id = (int16_t)cqv_rl_id; return true; }
   *type = THRIFT_TYPE_STOP; *field_id = 0; return false;
 }
 void thrift_read_list_begin(thrift_decoder_t* dec, thrift_type_t* elem_type, int32_t* count) {
